@@ -76,7 +76,27 @@ func newTestConfig(capacity uint32, ttl, validity time.Duration) (*Config, *x509
 	return c, tmplCA
 }
 
-var names = []string{"a.test", "A.test", "b.test", "c.test", "127.0.0.1", "::1", "[::1]:443", "a.test:8443", "192.0.2.7:443", "xn--bcher-kva.test", "*.wild.test"}
+// (name lengths: the last four are DNS names of exactly 64, 65 and 253 octets - a label may have 63 octets, a name
+// 253 - and a 64-octet name with a port)
+var names = []string{"a.test", "A.test", "b.test", "c.test", "127.0.0.1", "::1", "[::1]:443", "a.test:8443", "192.0.2.7:443", "xn--bcher-kva.test", "*.wild.test",
+	longName(64), longName(65), longName(253), longName(64) + ":443"}
+
+// longName returns a syntactically valid DNS name of exactly n octets ending in ".test".
+func longName(n int) string {
+	s := ".test"
+	for len(s) < n {
+		k := n - len(s)
+		if k > 64 {
+			k = 64
+		}
+		if len(s)+k == n {
+			s = strings.Repeat("x", k) + s // the first label: no leading dot
+		} else {
+			s = "." + strings.Repeat("y", k-1) + s
+		}
+	}
+	return s
+}
 
 // hostOf is the reference for "the name the client asked for": port and brackets removed.
 func hostOf(n string) string {
